@@ -7,7 +7,7 @@
    Notation: `asg memb r` is the label of row r, `lsum f l` the sum of f over the index list l,
    `lcount p l` the number of indices in l satisfying p. *)
 From Coq Require Import List Arith Bool Reals Lra Lia.
-From SC Require Import Base.Num C12.Model C12.ProofsBase C12.ProofsTree C12.ProofsFilter C12.ProofsKMeans C12.ProofsBuild.
+From SC Require Import Base.Num C12.Model C12.ProofsBase C12.ProofsTree C12.ProofsFilter C12.ProofsKMeans C12.ProofsBuild C12.ProofsKpp C12.ProofsLloyd C12.ProofsFit.
 Import ListNotations.
 Open Scope R_scope.
 
@@ -150,19 +150,81 @@ Proof.
   exact (clustering_exact _ _ _ _ _ _ _ _ _ _ _ (build_wf _ _ _ Hrect Hsep Hb) Hcl).
 Qed.
 
-(* ---- extensions that are NOT proved (checked per run only: `kmeans_plus_plus_replayed` and the
-        search) ---- *)
-
-(* k-means++ seeding leaves no cluster empty given k distinct rows and draws r in (0,1].
-   Missing: the invariant that every chosen row is a new distinct row. *)
-Definition C12_kmeanspp_nonempty_full_statement : Prop :=
-  forall maxv data k first rs y chosen,
+(* ---- k-means++ seeding given its draws, OVER THE REALS ----
+   If the data (a matrix) contain k distinct rows and every draw r = rng.gen::<f64>() lies in (0, 1],
+   every seed is a row at positive distance from all earlier seeds and the returned assignment gives
+   each label 0..k-1 to at least one row: no cluster is empty after seeding (so the first division
+   sums/size in `fit` is by a positive count).  Differences from the earlier draft statement: the
+   matrix hypothesis is added (for ragged lists squared_distance truncates and distinct rows can be at
+   distance 0), and the draft's `forall c, sqdist row c < maxv` (unsatisfiable over R) is replaced by
+   the weaker `0 < maxv`, which is all the proof needs.
+   r > 0 is necessary: with r = 0 the cutoff is 0 and `cost >= cutoff` already holds at index 0, so row
+   0 is picked even if it is a seed (gen::<f64>() is uniform on [0,1): probability 2^-53 per draw).
+   Exact arithmetic is used in `cost_before < cutoff <= cost_before + d[index]  ==>  d[index] > 0`;
+   over binary64 a tiny addend can be absorbed, so this is a theorem about the model at ROps; the
+   implementation is tied to it per run by `kmeans_plus_plus_replayed` and the search. *)
+Theorem C12_kmeanspp_nonempty : forall maxv data k first rs y chosen,
+    (forall r, In r data -> length r = length (hd [] data)) ->
     (2 <= k)%nat -> length rs = (k - 1)%nat -> Forall (fun r => 0 < r <= 1) rs ->
-    (forall r, (r < length data)%nat -> forall c, sqdist ROps (nth r data []) c < maxv) ->
+    0 < maxv ->
     (exists rows, NoDup (map (fun r => nth r data []) rows) /\ length rows = k /\
                   forall r, In r rows -> (r < length data)%nat) ->
     kmeans_plus_plus ROps maxv data k first (map Frac rs) = Some (y, chosen) ->
     forall c, (c < k)%nat -> exists r, (r < length data)%nat /\ nth r y 0%nat = c.
+Proof. exact kmeanspp_nonempty. Qed.
+
+(* ... and under the same hypotheses the seeding does not fail (the picked index is always < n) *)
+Theorem C12_kmeanspp_total : forall maxv data k first rs,
+    (forall r, In r data -> length r = length (hd [] data)) ->
+    (2 <= k)%nat -> length rs = (k - 1)%nat -> Forall (fun r => 0 < r <= 1) rs ->
+    0 < maxv ->
+    (exists rows, NoDup (map (fun r => nth r data []) rows) /\ length rows = k /\
+                  forall r, In r rows -> (r < length data)%nat) ->
+    (first < length data)%nat ->
+    exists y chosen, kmeans_plus_plus ROps maxv data k first (map Frac rs) = Some (y, chosen).
+Proof. exact kmeanspp_total. Qed.
+
+(* ---- one Lloyd iteration does not increase the distortion, OVER THE REALS ----
+   Two consecutive iterations of the loop in `fit` (lloyd_loop): the assignment step for the centroids
+   `cent` returns dist1 and (sums1, counts1, ...); the centroids are updated from these
+   (update_centroids: mean of every non-empty cluster, unchanged otherwise); the next assignment step
+   returns dist2.  Then dist2 <= dist1: the assignment step is optimal (C12_filter_exact) and the
+   mean minimises the sum of squared distances within each cluster.  Whatever buffers are passed to
+   the second call (the loop passes sums1, counts1, memb1).  Hence over R the test
+   `distortion <= dist` of the loop can only fire with equality from the second iteration on.
+   Over binary64 the two sides are rounded sums and the inequality can fail by rounding; that is
+   outside this theorem. *)
+Theorem C12_lloyd_step_monotone :
+  forall data perm t cent sums counts memb dist1 sums1 counts1 memb1 sums' counts' memb' dist2 sums2 counts2 memb2,
+  wf_bbd ROps 0 data perm t = true ->
+  clustering ROps perm cent t (sums, counts, memb) = Some (dist1, (sums1, counts1, memb1)) ->
+  clustering ROps perm (update_centroids ROps cent sums1 counts1) t (sums', counts', memb')
+    = Some (dist2, (sums2, counts2, memb2)) ->
+  dist2 <= dist1.
+Proof. exact lloyd_step_monotone. Qed.
+
+(* ---- KMeans::fit after the seeding, end to end OVER THE REALS: tree construction + Lloyd loop ----
+   C12_lloyd_bookkeeping without the well-formedness hypothesis: the tree is the one the model of
+   BBDTree::new builds over the data (C12_build_wf).  Ok(m) is only returned for k >= 2 and
+   max_iter >= 1.  Same caveat as C12_build_wf: exact arithmetic; rows at least 2e-10 apart. *)
+Theorem C12_fit_bookkeeping : forall maxv data k max_iter y0 m,
+  (forall r, In r data -> length r = length (hd [] data)) ->
+  (forall r1 r2, (r1 < length data)%nat -> (r2 < length data)%nat -> nth r1 data [] <> nth r2 data [] ->
+     exists q, Rabs (nth q (nth r1 data []) 0 - nth q (nth r2 data []) 0) >= 2 / 10000000000) ->
+  fit ROps maxv data k max_iter y0 = Some (Some m) ->
+  let n := length data in
+  let d := length (hd [] data) in
+  let y := km_y m in
+  (2 <= k)%nat /\ (1 <= max_iter)%nat /\
+  km_k m = k /\ length (km_centroids m) = k /\ length (km_size m) = k /\
+  (forall r, (r < n)%nat -> (asg y r < k)%nat) /\
+  (forall c, (c < k)%nat -> nth c (km_size m) 0%nat = lcount (fun r => (asg y r =? c)%nat) (seq 0 n)) /\
+  list_sum (km_size m) = n /\
+  (forall c q, (c < k)%nat -> (q < d)%nat -> (0 < nth c (km_size m) 0)%nat ->
+     nth q (nth c (km_centroids m) []) 0 =
+     lsum (fun r => if (asg y r =? c)%nat then nth q (nth r data []) 0 else 0) (seq 0 n)
+     / INR (nth c (km_size m) 0%nat)).
+Proof. exact fit_bookkeeping. Qed.
 
 (* ---- the hypotheses are satisfiable: two rows 0 and 2 on a line, the tree build_node makes ---- *)
 Definition ex_data : list (list R) := [[0]; [2]].
@@ -229,4 +291,53 @@ Proof.
       try (exfalso; apply Hne; reflexivity); exists 0%nat; cbn [ex_data nth];
       unfold Rabs; destruct (Rcase_abs _); lra.
   - apply C12_build_total; [cbn; lia | exact Hrect].
+Qed.
+
+(* the hypotheses of C12_kmeanspp_nonempty are satisfiable: ex_data has 2 distinct rows; k = 2, first
+   row 1, draw 1/2 *)
+Example C12_ex_kmeanspp :
+  (forall r, In r ex_data -> length r = length (hd [] ex_data)) /\
+  Forall (fun r => 0 < r <= 1) [1/2] /\
+  (exists rows, NoDup (map (fun r => nth r ex_data []) rows) /\ length rows = 2%nat /\
+                forall r, In r rows -> (r < length ex_data)%nat) /\
+  exists y chosen, kmeans_plus_plus ROps 1000 ex_data 2 1 (map Frac [1/2]) = Some (y, chosen).
+Proof.
+  assert (Hrect : forall r, In r ex_data -> length r = length (hd [] ex_data)).
+  { intros r [<-|[<-|[]]]; reflexivity. }
+  assert (Hrs : Forall (fun r => 0 < r <= 1) [1/2]) by (constructor; [lra | constructor]).
+  assert (Hrows : exists rows, NoDup (map (fun r => nth r ex_data []) rows) /\ length rows = 2%nat /\
+                               forall r, In r rows -> (r < length ex_data)%nat).
+  { exists [0; 1]%nat. split; [|split; [reflexivity|]].
+    - cbn [map nth ex_data]. constructor; [|constructor; [intros []|constructor]].
+      intros [E|[]]. inversion E. lra.
+    - intros r [<-|[<-|[]]]; cbn; lia. }
+  split; [exact Hrect|]. split; [exact Hrs|]. split; [exact Hrows|].
+  apply C12_kmeanspp_total; auto; try lra; cbn; lia.
+Qed.
+
+(* the hypotheses of C12_lloyd_step_monotone are satisfiable (with C12_ex_wf): two consecutive
+   assignment steps on ex_tree starting from the single centroid 1 *)
+Example C12_ex_lloyd_step : exists dist1 s1 c1 m1 res2,
+  clustering ROps [0; 1]%nat [[1]] ex_tree ([[5]], [7]%nat, [9; 9]%nat) = Some (dist1, (s1, c1, m1)) /\
+  clustering ROps [0; 1]%nat (update_centroids ROps [[1]] s1 c1) ex_tree (s1, c1, m1) = Some res2.
+Proof.
+  unfold clustering at 1. change (shape_ok _ _ _ _) with true. cbv iota.
+  cbn [filter ex_tree length seq find_closest closest_loop snd List.filter prune Nat.eqb negb Nat.ltb Nat.leb
+       assign_node map n_sum n_count n_index nth upd vadd set_range Nat.add].
+  do 5 eexists. split; [reflexivity|].
+  unfold clustering. cbn [update_centroids Nat.ltb Nat.leb map].
+  change (shape_ok _ _ _ _) with true. cbv iota. reflexivity.
+Qed.
+
+(* the hypotheses of C12_fit_bookkeeping are satisfiable: on two identical rows (a matrix, trivially
+   separated) fit returns a model for k = 2, one iteration, initial assignment [0; 1] *)
+Example C12_ex_fit :
+  (forall r, In r ex_dup -> length r = length (hd [] ex_dup)) /\
+  (forall r1 r2, (r1 < length ex_dup)%nat -> (r2 < length ex_dup)%nat -> nth r1 ex_dup [] <> nth r2 ex_dup [] ->
+     exists q, Rabs (nth q (nth r1 ex_dup []) 0 - nth q (nth r2 ex_dup []) 0) >= 2 / 10000000000) /\
+  exists m, fit ROps 1000 ex_dup 2 1 [0; 1]%nat = Some (Some m).
+Proof.
+  split; [intros r [<-|[<-|[]]]; reflexivity|]. split; [|exact ex_dup_fit].
+  intros r1 r2 H1 H2 Hne. exfalso. apply Hne.
+  destruct r1 as [|[|r1]]; destruct r2 as [|[|r2]]; cbn [ex_dup length] in H1, H2; try lia; reflexivity.
 Qed.
